@@ -11,6 +11,7 @@ import (
 	"os"
 	"reflect"
 	"runtime"
+	"strings"
 	"text/template"
 
 	m3 "github.com/goark/go-cvss/v3/metric"
@@ -140,6 +141,8 @@ func runExport(rep any, nilReport bool, lvl byte, text string, mode string, chun
 		r, err = ex.ExportWithString(text)
 	} else if nilReader {
 		r, err = ex.ExportWith(nil)
+	} else if strings.HasPrefix(mode, "reader:") {
+		r, err = ex.ExportWith(stdReader(mode[len("reader:"):], text, chunk))
 	} else {
 		r, err = ex.ExportWith(&chunkReader{data: []byte(text), size: chunk, failAt: failAt, eofWithData: mode == "reader-eof"})
 	}
@@ -152,6 +155,45 @@ func runExport(rep any, nilReport bool, lvl byte, text string, mode string, chun
 	}
 	return
 }
+
+// stdReader: a reader of the standard library whose REMAINING content is text; `consumed` bytes in front of it were
+// read (or skipped) before the export sees the reader -- "the reader's full content" is what it still has to give
+func stdReader(kind, text string, consumed int) io.Reader {
+	prefix := strings.Repeat("#", consumed)
+	all := prefix + text
+	skip := func(r io.Reader) io.Reader {
+		if consumed > 0 {
+			io.CopyN(io.Discard, r, int64(consumed))
+		}
+		return r
+	}
+	switch kind {
+	case "strings":
+		return skip(strings.NewReader(all))
+	case "bytes":
+		return skip(bytes.NewReader([]byte(all)))
+	case "buffer":
+		return skip(bytes.NewBufferString(all))
+	case "section":
+		return io.NewSectionReader(strings.NewReader(all), int64(consumed), int64(len(text)))
+	case "section-consumed":
+		return skip(io.NewSectionReader(strings.NewReader("pad"+all), 3, int64(len(all))))
+	case "bufio":
+		return skip(bufio.NewReaderSize(strings.NewReader(all), 16))
+	case "limit":
+		return io.LimitReader(skip(strings.NewReader(all+"trailing bytes beyond the limit")), int64(len(text)))
+	case "multi":
+		h := len(text) / 2
+		return io.MultiReader(skip(strings.NewReader(prefix+text[:h])), strings.NewReader(""), bytes.NewReader([]byte(text[h:])))
+	case "seek":
+		sr := strings.NewReader(all)
+		sr.Seek(int64(consumed), io.SeekStart)
+		return sr
+	}
+	return strings.NewReader(text)
+}
+
+var stdReaderKinds = []string{"strings", "bytes", "buffer", "section", "section-consumed", "bufio", "limit", "multi", "seek"}
 
 func refRender(rep any, text string) (bool, string) {
 	t, err := template.New("Repost").Parse(text) // same root name as the library uses: a template may refer to it
@@ -278,6 +320,8 @@ func cmdTmpl(args []string) {
 			emit("string", 0, -1, false, false)
 			emit("reader", []int{1, 7, 1 << 20}[(i+ri)%3], -1, false, false)
 			emit("reader-eof", []int{1 << 20, 1, 5}[(i+ri)%3], -1, false, false)
+			// readers of the standard library, fresh (0 bytes consumed) or partly consumed / positioned
+			emit("reader:"+stdReaderKinds[(i+ri)%len(stdReaderKinds)], []int{0, 11, 1, 4096}[(i/3+ri)%4], -1, false, false)
 			if (i+ri)%5 == 0 {
 				nchunks := (len(text) + 2) / 3
 				emit("reader", 3, rng.Intn(nchunks+1), false, false) // fails before/at/after some chunk
